@@ -7,4 +7,4 @@ INVARIANT InvBlockRef
 INVARIANT InvReasonDev
 INVARIANT InvDescDev
 INVARIANT InvSpecifiedByDev
-INVARIANT InvDefaultDev
+INVARIANT InvDefaultToday
